@@ -1560,6 +1560,101 @@ explore_fan(int kind)
 	vx_explore(&c, NULL);
 }
 
+
+// ---- messages dropped because a queue is full ---------------------------------------------------------------
+// the dropping protocols (SUB with either drop policy, on the socket and on 0..2 extra contexts; BUS; PUB towards
+// a subscriber that does not read) get more messages than their queues hold; what is dropped is released exactly
+// once (accounting allocator: no leak after nng_fini, no double free), what is kept is delivered
+static void
+run_overflow(void *arg)
+{
+	(void) arg;
+	int kind    = vs_choose(VK_ENV, 3);     // 0 SUB, 1 BUS, 2 PUB -> raw subscriber that does not read
+	int rbuf    = 1 + vs_choose(VK_ENV, 2); // 1, 2
+	int prefnew = vs_choose(VK_ENV, 2);
+	int nctx    = vs_choose(VK_ENV, 3);
+	int nmsg    = rbuf + 1 + vs_choose(VK_ENV, 3); // 1..3 beyond the capacity
+	vh_init(1);
+	nng_socket tx, rx;
+	nng_ctx    cx[2];
+	if (kind == 2) {
+		VH_OK(nng_pub0_open(&tx));
+		VH_OK(nng_socket_set_int(tx, NNG_OPT_SENDBUF, rbuf));
+		nng_listener l;
+		int          fd = vp_connect_raw(tx, SP_SUB, &l);
+		if (fd < 0)
+			vs_fail("harness:setup", "raw subscriber");
+		// 1 MB messages: the first fills the kernel buffer and stays in flight, the next rbuf are queued, the
+		// rest are dropped
+		for (int i = 0; i < nmsg + 1; i++) {
+			nng_msg *m;
+			VH_OK(nng_msg_alloc(&m, 1u << 20));
+			if (nng_sendmsg(tx, m, NNG_FLAG_NONBLOCK) != 0)
+				nng_msg_free(m);
+			vs_settle();
+		}
+		vs_outcome("pub sbuf%d n%d", rbuf, nmsg);
+		nng_socket_close(tx);
+		close(fd);
+		vh_fini();
+		return;
+	}
+	VH_OK(kind ? nng_bus0_open(&tx) : nng_pub0_open(&tx));
+	VH_OK(kind ? nng_bus0_open(&rx) : nng_sub0_open(&rx));
+	VH_OK(nng_socket_set_int(rx, NNG_OPT_RECVBUF, rbuf));
+	if (!kind) {
+		VH_OK(nng_socket_set_bool(rx, NNG_OPT_SUB_PREFNEW, prefnew));
+		VH_OK(nng_sub0_socket_subscribe(rx, "", 0));
+		for (int i = 0; i < nctx; i++) {
+			VH_OK(nng_ctx_open(&cx[i], rx));
+			VH_OK(nng_ctx_set_int(cx[i], NNG_OPT_RECVBUF, rbuf));
+			VH_OK(nng_ctx_set_bool(cx[i], NNG_OPT_SUB_PREFNEW, i == 0 ? !prefnew : prefnew));
+			VH_OK(nng_sub0_ctx_subscribe(cx[i], "", 0));
+		}
+	} else
+		nctx = 0;
+	VH_OK(nng_listen(tx, "inproc://c03ovf", NULL, 0));
+	VH_OK(nng_dial(rx, "inproc://c03ovf", NULL, 0));
+	vs_settle();
+	for (int i = 0; i < nmsg; i++) {
+		char b[8];
+		snprintf(b, sizeof(b), "m%d", i);
+		if (vh_send_nb(tx, b, 3) != 0)
+			vs_fail("C03:send", "send %d refused", i);
+		vs_settle();
+	}
+	int      got = 0;
+	nng_msg *m;
+	while (nng_recvmsg(rx, &m, NNG_FLAG_NONBLOCK) == 0) {
+		nng_msg_free(m);
+		got++;
+	}
+	if (got < 1 || got > rbuf + 1)
+		vs_fail("C03:queue-content", "%s with a receive buffer of %d got %d of %d messages",
+		    kind ? "BUS" : "SUB", rbuf, got, nmsg);
+	for (int i = 0; i < nctx; i++) {
+		// the first context keeps its content until it is closed, the second is drained
+		if (i == 1) {
+			nng_aio *a;
+			VH_OK(nng_aio_alloc(&a, NULL, NULL));
+			for (;;) {
+				nng_aio_set_timeout(a, 0);
+				nng_ctx_recv(cx[i], a);
+				nng_aio_wait(a);
+				if (nng_aio_result(a) != 0)
+					break;
+				nng_msg_free(nng_aio_get_msg(a));
+			}
+			nng_aio_free(a);
+		}
+		VH_OK(nng_ctx_close(cx[i]));
+	}
+	vs_outcome("%s rbuf%d new%d ctx%d n%d got%d", kind ? "bus" : "sub", rbuf, prefnew, nctx, nmsg, got);
+	nng_socket_close(rx);
+	nng_socket_close(tx);
+	vh_fini();
+}
+
 static void
 explore(const char *name, void (*fn)(void *))
 {
@@ -1634,6 +1729,7 @@ main(int argc, char **argv)
 		vx_explore(&c, NULL);
 	}
 	explore("req-resend-time-change", run_reqresend);
+	explore("queue-overflow-drops", run_overflow);
 	for (int md = 0; md < 3; md++) {
 		static const char *SN[] = { "stats-vs-connection", "stats-vs-socket-close",
 			"stats-vs-listener" };
